@@ -76,6 +76,9 @@ func defaultExternKind(key string) (string, bool) {
 	} else if j := strings.Index(k, "."); j >= 0 {
 		pkg = k[:j]
 	}
+	if strings.HasPrefix(key, "(*github.com/sirupsen/logrus.") && (strings.Contains(key, ").Panic") || strings.Contains(key, ").Fatal")) {
+		return "noreturn", true
+	}
 	switch key {
 	case "time.Now", "time.Since", "time.Until", "time.After", "time.NewTimer", "time.AfterFunc", "time.Sleep":
 		return "noeffect", true
@@ -181,6 +184,10 @@ func (e *Enc) call(site ssa.Instruction, cc *ssa.CallCommon, rt types.Type) Valu
 		return e.callExtern(site, key, ext, calleeObj, args, argTypes, rt)
 	}
 	kind, ok := defaultExternKind(key)
+	if !ok && e.fc != nil && e.fc.DynNoEffect && (key == "dynamic call" || strings.HasPrefix(key, "dyn:")) {
+		kind, ok = "noeffect", true
+		e.assumption("calls through function values in " + e.fnLabel + " are assumed not to touch modelled memory (dyncalls noeffect)")
+	}
 	if !ok {
 		kind = "havoc"
 		e.note("call to " + key + " has no contract: all heaps havocked")
@@ -204,6 +211,10 @@ func (e *Enc) callByKind(site ssa.Instruction, key, kind string, args []Value, r
 		v := e.freshValue("r$"+sanitize(shortName(key)), rt)
 		e.stdPost(key, v, rt)
 		return v
+	case "noreturn":
+		// the callee never returns (panics or exits): the path ends here
+		e.assume(tFalse, key+" does not return")
+		return e.freshValue("r$"+sanitize(shortName(key)), rt)
 	default:
 		e.cur.havocAll()
 		return e.freshValue("r$"+sanitize(shortName(key)), rt)
